@@ -36,6 +36,7 @@ J Op::to_json() const {
     if (refree) j.set("refree", refree);
     if (fail_k) { j.set("fail_k", fail_k == K_ALL ? J("all") : J(fail_k)); j.set("fail_mode", fail_mode); if (fail_mode == 2) j.set("fail_set", fail_set); }
     if (lose) j.set("lose", lose);
+    if (keep) j.set("keep", keep);
     if (task) j.set("task", task);
     if (!keys.empty()) {
         J items = J::arr();
@@ -61,7 +62,7 @@ Op Op::from_json(const J& j) {
     o.refree = (int)j.geti("refree");
     if (const J* k = j.get("fail_k")) o.fail_k = k->t == J::STR ? K_ALL : (int)k->i;
     o.fail_mode = (int)j.geti("fail_mode"); o.fail_set = (unsigned long long)j.geti("fail_set");
-    o.lose = (int)j.geti("lose"); o.task = (int)j.geti("task");
+    o.lose = (int)j.geti("lose"); o.keep = (int)j.geti("keep"); o.task = (int)j.geti("task");
     if (const J* it = j.get("items")) for (auto& e : it->a) {
         o.keys.push_back(e.gets("k"));
         const J* v = e.get("v");
@@ -95,6 +96,7 @@ std::string Op::brief() const {
     s += buf;
     if (fail_k) { snprintf(buf, sizeof buf, " [alloc_fail k=%s mode=%d]", fail_k == K_ALL ? "all" : std::to_string(fail_k).c_str(), fail_mode); s += buf; }
     if (lose) s += " [then source_loss]";
+    if (keep) s += " [object kept in use if the call fails]";
     if (task) s += " @task" + std::to_string(task);
     return s;
 }
